@@ -45,7 +45,7 @@ theorem lookup_setKey {β : Type} (l : List (String × β)) (k : String) (x : β
   induction l with
   | nil =>
     by_cases h : k = k'
-    · simp [setKey, List.lookup, h]
+    · simp [setKey, h]
     · have : (k' == k) = false := by simpa using fun e => h e.symm
       simp [setKey, List.lookup, h, this]
   | cons e t ih =>
@@ -53,7 +53,7 @@ theorem lookup_setKey {β : Type} (l : List (String × β)) (k : String) (x : β
     by_cases h1 : a = k
     · subst h1
       by_cases h : a = k'
-      · simp [setKey, List.lookup, h]
+      · simp [setKey, h]
       · have : (k' == a) = false := by simpa using fun e => h e.symm
         simp [setKey, List.lookup, h, this]
     · by_cases h2 : k' = a
